@@ -249,7 +249,7 @@ def process_packet_contract():
         loops={"loop#1": dict(
             index="_i",
             invariant=[f"ghost.dispatched == old(ghost.dispatched) + with_msg({H}, msg, _i)",
-                       f"enum_of(handlers_copy) == {H}"] + loop_inv_step(),
+                       f"iterated_seq == {H}"] + loop_inv_step(),
             # (C10) before the first subscriber runs the message has already counted as a sign of life
             entry_hints=f"unfold(with_msg({H}, msg, 0))\nassert implies(True, self._pong_timer is None and not self._send_pending_ping and not armed(old(self._pong_timer)))",
             end_hints=f"unfold(with_msg({H}, msg, _i))",
